@@ -12,6 +12,8 @@ NOTE = ("Trusted: Lean 4.33 kernel + axioms propext/Classical.choice/Quot.sound 
 CHECKS = {
  "C18": ("Theorems over the list model of FuelConsumption.__add__/__mul__/fuel_by_mass_fraction for an arbitrary commutative-monoid mass type (scalars and series alike): per-kind and total mass conserved, commutative, associative, neutral element, scaling, fractions sum to one / zero. 'Operands unchanged' has no content in a value model and is decided by the correspondence check only (snapshots of shared operands after every operation of a history).",
          "Lean 4 proof (induction over record lists) + model/implementation correspondence on operation histories"),
+ "C02": ("Theorems over the model of switchboard2bus_configuration (relabel-whole-group merge, as in the code after the repair of D1): same label <=> linked by a chain of closed breakers (EqvGen), for every breaker list incl. rings, stars, parallel breakers; independent of declaration order (Perm) and of the orientation of any subset of breakers; bus count = number of groups (witnessed by a list of pairwise unconnected representatives); renumbering preserves the grouping and lies in 1..no_bus; the status used for step t is the status given for step t (change indices). The pre-repair merge map is kept as groupLegacy with kernel-checked counter-examples.",
+         "Lean 4 proof (invariant over the breaker fold, EqvGen) + model/implementation correspondence on breaker graphs and status series (exhaustive on <=4 switchboards in the thorough tier)"),
  "C15": ("Theorems over the model of min_load_table_dict + PmsLoadTable.on_pattern for every list of positive ratings (any length >= 1), every positive fraction and every load: sufficient (strictly above the load whenever some set is), all-on otherwise, minimal among non-empty sets, monotone, non-empty, loading <= fraction after an equal-sharing balance; and for the equal-size rule of feems.runsimulation (ceil): non-empty, sufficient, minimal, monotone. Proofs use only 'sorted + permutation of all patterns'. Correspondence compares table lookups exactly (integer ratings x dyadic fractions make double thresholds exact) incl. every threshold, ties, negative loads and loads above capacity; the MachineryCalculation front end is exercised by C16/C12.",
          "Lean 4 proof (sortedness + permutation argument over the pattern table) + model/implementation correspondence at and around every switching threshold"),
  "C17": ("Theorems over the storage model: energy = interval-weighted sum of terminal power x charging efficiency / discharging efficiency after converter loss, SoC formula (battery kWh, supercapacitor Wh), accumulated series starts at 0, has n+1 entries and ends at the total, stored energy never exceeds terminal energy for any series (so equal charge and discharge never raise the SoC), closed form for one charge/discharge. The converter is an abstract function constrained only by 'never creates energy'; in the correspondence its per-sample value is an oracle read from the real converter.",
